@@ -880,8 +880,8 @@ func TestC02(t *testing.T) {
 	rep.Coverage["rule"] = "a case (all cases are pairwise distinct by construction) whose entry name is not valid UTF-8 or differs from its cleaned form (filepath.Clean), i.e. a name on which the sanitisation / transcoding has something to do"
 	rep.Coverage["exhaustive"] = total.Evaluations == expected
 	rep.Coverage["bound"] = map[string]any{
-		"tokens_main_alphabet": 14, "tokens_deep_alphabet": 5, "limits": bd, "cases_per_block": blockSizes,
-		"blocks": "main/deep: names x {file, dir, after-dir} x destinations x {os, mem}; shapes: {deflate, symlink, after-symlink}; limits: {non-recursive limits, recursive limits}; dest-missing: destination absent; nested1/nested2: the name inside an inner archive at depth 1/2 (recursive limits), outer entries x.zip, a/x.zip, .zip",
+		"tokens_main_alphabet": tokenList(tokensT), "tokens_deep_alphabet": tokenList(tokensDeep), "limits": bd, "cases_per_block": blockSizes,
+		"blocks": "see the comment of space() in checks/c02/space.go: every block is a full product of the dimensions it lists",
 	}
 	rep.Coverage["cases_per_block_evaluated"] = total.PerBlock
 	rep.Coverage["distinct_outcomes"] = len(total.Outcomes)
@@ -900,6 +900,14 @@ func TestC02(t *testing.T) {
 		"a mutating backend call that failed changed nothing (cross-checked by the dump of everything outside the destination)",
 	}
 	rep.Finish()
+}
+
+func tokenList(ts [][]byte) []string {
+	var out []string
+	for _, t := range ts {
+		out = append(out, strconv.Quote(string(t)))
+	}
+	return out
 }
 
 // replay re-runs one stored case five times and prints what the backend saw.
